@@ -5,6 +5,12 @@ VERIF = os.path.dirname(os.path.dirname(os.path.abspath(__file__)))
 ALL = ["C%02d" % i for i in range(1, 21)]
 
 CHECKS = {
+ "C06": dict(engine="H", technique="explicit-state BFS over send/enable/peer/loop histories with bounded injected I/O deviations (short write, EAGAIN, short readv via interposed write/readv) on the real BufferedFd and TcpConnection over a socketpair, byte-exact reference streams; plus exhaustive bulk lane with real kernel back-pressure",
+   text="Every history up to the depth of sends, enable/disable, peer reads/writes/close and loop passes, with up to 1 (quick) / 2 (thorough) deviating kernel answers, is executed on both back-ends for several receive thresholds and consumption policies; the peer's bytes must always be a prefix of the sent stream and complete at quiescence, the receive callback must see exactly the unconsumed bytes in order, send-complete only with an empty buffer and everything written, peer close once after all data.",
+   note="Trusted: interposed write/readv (legal kernel behaviours only), the std::string reference, ASan; bounds: <=14 sent / <=9 received bytes per history, depth 6/7; bulk lane 64 KiB-2 MiB.", ref="2/C06"),
+ "C08": dict(engine="H", technique="explicit-state BFS over operation histories on the real Cabinet / ObjectPool / util::Fd with complete internal state as canonical key (Fd space closed at a fixpoint), reference status tables, ASan/UBSan",
+   text="Every history up to the depth of alloc/update/free/clear/foreach-with-removal over every token ever issued (stale ones included), of pool alloc/free for keep numbers 0/1/2/max with a ctor/dtor-counting probe, and of copy/move/assign/swap/reset/close/destroy on shared fd handles with an injected or interposed close is executed and compared with a boring reference after each step.",
+   note="Trusted: reference tables, interposed ::close for fake fds >= 1000, ASan/UBSan; cabinet id wrap after 2^64 allocations out of reach.", ref="2/C08"),
  "C04": dict(engine="H", technique="explicit-state BFS to a fixpoint over signal-subscription histories on two real loops (two threads, lock-step), real raise() deliveries, fork per evaluation; invariant oracle on callbacks, old handler and sigaction() disposition",
    text="All reachable subscription states of 4 signal events (single signal, signal set, one-shot) on two loops are explored to a fixpoint; in every state each signal is raised for real and every loop runs one pass: each enabled subscriber gets exactly one callback on its own thread, the previously installed handler (plain / SA_SIGINFO / SIG_IGN) is called once, and whenever a signal has no subscriber the kernel disposition equals the pre-subscription one field by field.",
    note="Trusted: lock-step controller (deliveries never overlap subscription changes, as the property assumes); SA_RESTORER ignored in the comparison; bounds: 2 signals, 4 events, 2 loops.", ref="2/C04"),
